@@ -13,6 +13,14 @@ use std::collections::HashSet;
 use std::path::{Path, PathBuf};
 use tracing::{debug, info};
 
+/// A function body whose scan for undeclared fixtures waits until the whole file is visited.
+struct PendingBodyScan<'a> {
+    body: &'a [Stmt],
+    declared_params: HashSet<String>,
+    function_name: &'a str,
+    function_line: usize,
+}
+
 impl FixtureDatabase {
     /// Analyze a Python file for fixtures and usages.
     /// This is the public API - it cleans up previous definitions before analyzing.
@@ -157,8 +165,29 @@ impl FixtureDatabase {
             self.imports.insert(file_path.clone(), module_level_names);
 
             // Second pass: analyze fixtures and tests
+            let mut body_scans = Vec::new();
             for stmt in &module.body {
-                self.visit_stmt(stmt, &file_path, is_conftest, content, &line_index);
+                self.visit_stmt(
+                    stmt,
+                    &file_path,
+                    is_conftest,
+                    content,
+                    &line_index,
+                    &mut body_scans,
+                );
+            }
+
+            // Third pass: scan the bodies for undeclared fixtures once every definition of
+            // the file is recorded (a fixture is visible to functions written above it)
+            for scan in &body_scans {
+                self.scan_function_body_for_undeclared_fixtures(
+                    scan.body,
+                    &file_path,
+                    &line_index,
+                    &scan.declared_params,
+                    scan.function_name,
+                    scan.function_line,
+                );
             }
         }
 
@@ -371,13 +400,14 @@ impl FixtureDatabase {
     }
 
     /// Visit a statement and extract fixture definitions and usages
-    fn visit_stmt(
+    fn visit_stmt<'a>(
         &self,
-        stmt: &Stmt,
+        stmt: &'a Stmt,
         file_path: &PathBuf,
         _is_conftest: bool,
         content: &str,
         line_index: &[usize],
+        body_scans: &mut Vec<PendingBodyScan<'a>>,
     ) {
         // First check for assignment-style fixtures: fixture_name = pytest.fixture()(func)
         if let Stmt::Assign(assign) = stmt {
@@ -441,7 +471,14 @@ impl FixtureDatabase {
             }
 
             for class_stmt in &class_def.body {
-                self.visit_stmt(class_stmt, file_path, _is_conftest, content, line_index);
+                self.visit_stmt(
+                    class_stmt,
+                    file_path,
+                    _is_conftest,
+                    content,
+                    line_index,
+                    body_scans,
+                );
             }
             return;
         }
@@ -624,14 +661,12 @@ impl FixtureDatabase {
             }
 
             let function_line = self.get_line_from_offset(range.start().to_usize(), line_index);
-            self.scan_function_body_for_undeclared_fixtures(
+            body_scans.push(PendingBodyScan {
                 body,
-                file_path,
-                line_index,
-                &declared_params,
-                func_name,
+                declared_params,
+                function_name: func_name,
                 function_line,
-            );
+            });
         }
 
         // Check if this is a test function (a fixture whose function happens to be called
@@ -676,14 +711,12 @@ impl FixtureDatabase {
             }
 
             let function_line = self.get_line_from_offset(range.start().to_usize(), line_index);
-            self.scan_function_body_for_undeclared_fixtures(
+            body_scans.push(PendingBodyScan {
                 body,
-                file_path,
-                line_index,
-                &declared_params,
-                func_name,
+                declared_params,
+                function_name: func_name,
                 function_line,
-            );
+            });
         }
     }
 
